@@ -3,13 +3,19 @@ use crate::{cover, Outcome, Src};
 use num_traits::{Bounded, Float, FloatConst, FromPrimitive, NumCast, One, Signed, ToPrimitive, Zero};
 use softposit::MathConsts;
 
-/// native side: run a closure, None if it panicked (todo!() bodies)
+/// native side: run a closure, None if it panicked (todo!() bodies). Under Kani this branch is dead
+/// code, but it is still compiled, and Kani's compiler crashes on the catch_unwind intrinsic.
+#[cfg(not(kani))]
 fn guarded<T>(f: impl FnOnce() -> T + std::panic::UnwindSafe) -> Option<T> {
     let hook = std::panic::take_hook();
     std::panic::set_hook(Box::new(|_| {}));
     let r = std::panic::catch_unwind(f).ok();
     std::panic::set_hook(hook);
     r
+}
+#[cfg(kani)]
+fn guarded<T>(f: impl FnOnce() -> T) -> Option<T> {
+    Some(f())
 }
 fn opt_eq(a: Option<u64>, b: Option<u64>) -> Outcome {
     match (a, b) {
